@@ -359,3 +359,79 @@ impl Property for C14 {
         &["kind", "text", "tokens", "class", "sep_after", "excluded"]
     }
 }
+
+/// Differential on raw text (fuzz target): asserted only where the reference lexer accepts the
+/// whole text and no word falls into the corner where the reference is ambiguous.
+pub fn differential_raw(text: &str) -> Result<(), Failure> {
+    let r = ref_lex(text);
+    if r.iter().any(|t| matches!(t.kind, RefKind::Invalid(_))) {
+        return Ok(());
+    }
+    // digit-leading words that are not integers: LLVM's own number/identifier heuristic applies
+    // when the first letter is x, b or a hex digit; the reference says nothing about it
+    for t in &r {
+        let w = &text[t.start..t.end];
+        let b = w.as_bytes();
+        if b[0].is_ascii_digit() && t.kind == RefKind::Id {
+            let first_letter = b.iter().find(|c| !c.is_ascii_digit()).copied().unwrap_or(b'g');
+            if matches!(first_letter, b'a'..=b'f' | b'A'..=b'F' | b'x' | b'b') {
+                return Ok(());
+            }
+        }
+        if matches!(t.kind, RefKind::Int | RefKind::BinInt) {
+            // out-of-range literals are the implementation's right to reject
+            if crate::props::c14::out_of_range(w) {
+                return Ok(());
+            }
+        }
+        if matches!(t.kind, RefKind::Directive(_)) {
+            return Ok(()); // raw directives are C15's business
+        }
+    }
+    let (got, errors) = impl_lex(text);
+    let got: Vec<_> = got.into_iter().filter(|(k, _, _)| !k.is_trivia()).collect();
+    if !errors.is_empty() {
+        return Err(Failure::plain("C14.raw-error", format!("lexical errors {errors:?} on reference-valid text {text:?}")));
+    }
+    if got.len() != r.len() {
+        return Err(Failure::plain("C14.raw-count", format!("{} tokens vs reference {} on {text:?}", got.len(), r.len())));
+    }
+    for (g, t) in got.iter().zip(&r) {
+        if (g.1, g.2) != (t.start, t.end) {
+            return Err(Failure::plain("C14.raw-boundary", format!("token {:?} {}..{} vs reference {}..{} on {text:?}", g.0, g.1, g.2, t.start, t.end)));
+        }
+        let ok = match &t.kind {
+            RefKind::Id => g.0 == TokenKind::Id,
+            RefKind::Int | RefKind::BinInt => matches!(g.0, TokenKind::IntVal | TokenKind::BinaryIntVal),
+            RefKind::Str => g.0 == TokenKind::StrVal,
+            RefKind::Code => g.0 == TokenKind::CodeFragment,
+            RefKind::Var => g.0 == TokenKind::VarName,
+            RefKind::Keyword(_) | RefKind::Punct(_) => g.0 != TokenKind::Id && g.0 != TokenKind::Error,
+            RefKind::Bang(_) => g.0.is_bang_operator() || g.0.is_cond_operator(),
+            _ => true,
+        };
+        if !ok {
+            return Err(Failure::plain("C14.raw-kind", format!("token {:?} at {}..{} for reference {:?} on {text:?}", g.0, g.1, g.2, t.kind)));
+        }
+    }
+    Ok(())
+}
+
+pub fn out_of_range(w: &str) -> bool {
+    if let Some(h) = w.strip_prefix("0x") {
+        return h.trim_start_matches('0').len() > 16;
+    }
+    if let Some(b) = w.strip_prefix("0b") {
+        return b.trim_start_matches('0').len() > 64;
+    }
+    let neg = w.starts_with('-');
+    let digits = w.trim_start_matches(['-', '+']).trim_start_matches('0');
+    if digits.len() > 19 {
+        return true;
+    }
+    if digits.len() == 19 {
+        let v: u128 = digits.parse().unwrap_or(u128::MAX);
+        return if neg { v > 9223372036854775808 } else { v > 9223372036854775807 };
+    }
+    false
+}
